@@ -28,6 +28,9 @@ def configs(tier):
                 if (ne, nu) == (1, 1) and wspec == "missing": continue
                 out.append(dict(kind=kind, ne=ne, nu=nu, w=wspec, B=B, d=1))
         out.append(dict(kind=kind, ne=1, nu=1, w="scalar", B=B, d=1, plain=True))
+        if kind != "ode":      # two spatial coordinates: the equations get (t, x) / x with x the WHOLE spatial point
+            out.append(dict(kind=kind, ne=2, nu=2, w="scalar", B=B, d=2))
+            out.append(dict(kind=kind, ne=1, nu=1, w="scalar", B=B, d=2, plain=True))
         # a second system of the same shape but with OTHER weights is evaluated first, in the same process: each system is composed with its own weights
         out.append(dict(kind=kind, ne=2, nu=2, w="dict", B=B, d=1, seq=True))
         # the user's equations return their single residual component as a bare scalar
@@ -233,14 +236,16 @@ def run(cfg, R):
             return SystemLossPDE(u_dict=nets, dynamic_loss_dict=dyn, omega_boundary_fun_dict=bfun, omega_boundary_condition_dict=bcond,
                                  loss_weights=LossWeightsPDEDict(**wkw), params_dict=params, **kw)
         if kind == "statio":
-            batch = PDEStatioBatch(inside_batch=jnp.arange(1, B * d + 1).reshape(B, d) * 0.2, border_batch=jnp.array([[[0.0, 1.0]]]), obs_batch_dict=obs)
+            bb = jnp.array([[[0.0, 1.0]]]) if d == 1 else jnp.array([[[0.0, 1.0, 0.3, 0.6], [0.4, 0.7, 0.0, 1.0]]])        # (1, d, 2d): one point per facet
+            batch = PDEStatioBatch(inside_batch=jnp.arange(1, B * d + 1).reshape(B, d) * 0.2, border_batch=bb, obs_batch_dict=obs)
             singles = {k: LossPDEStatio(u=nets[k], dynamic_loss=None, omega_boundary_fun=bfun[k], omega_boundary_condition=bcond[k], params=params.extract_params(k)) for k in ukeys}
         else:
             batch = PDENonStatioBatch(times_x_inside_batch=jnp.arange(1, B * (1 + d) + 1).reshape(B, 1 + d) * 0.2,
-                                      times_x_border_batch=jnp.array([[[0.3, 0.3], [0.0, 1.0]]]), obs_batch_dict=obs)
+                                      times_x_border_batch=(jnp.array([[[0.3, 0.3], [0.0, 1.0]]]) if d == 1 else
+                                                            jnp.array([[[0.3, 0.3, 0.3, 0.3], [0.0, 1.0, 0.3, 0.6], [0.4, 0.7, 0.0, 1.0]]])), obs_batch_dict=obs)
             singles = {k: LossPDENonStatio(u=nets[k], dynamic_loss=None, omega_boundary_fun=bfun[k], omega_boundary_condition=bcond[k],
                                            initial_condition_fun=ic[k], params=params.extract_params(k)) for k in ukeys}
-    name = f"{kind}/{ne}eq-{nu}unk/{wspec}" + ("/plain" if plain else "") + ("/after-another-system" if seq else "") + ("/scalar-residual" if cfg.get("scalar_res") else "")
+    name = f"{kind}/{ne}eq-{nu}unk/{wspec}" + (f"/d{d}" if d != 1 else "") + ("/plain" if plain else "") + ("/after-another-system" if seq else "") + ("/scalar-residual" if cfg.get("scalar_res") else "")
     key = f"{kind}:{ne}x{nu}:{wspec}" + (":after-another-system" if seq else "") + (":scalar-residual" if cfg.get("scalar_res") else "")
     R.note(functions=["jinns.loss.%s.__post_init__/set_loss_weights/evaluate" % ("SystemLossODE" if kind == "ode" else "SystemLossPDE"),
                       "jinns.loss._loss_utils.constraints_system_loss_apply", "dynamic_loss_apply"])
